@@ -879,7 +879,7 @@ pub mod watch {
     thread_local! { static MY: std::cell::Cell<usize> = const { std::cell::Cell::new(usize::MAX) }; }
 
     fn limit() -> f64 {
-        std::env::var("VERIF_HANG_LIMIT_S").ok().and_then(|s| s.parse().ok()).unwrap_or(120.0)
+        std::env::var("VERIF_HANG_LIMIT_S").ok().and_then(|s| s.parse().ok()).unwrap_or(60.0)
     }
 
     fn start() {
